@@ -209,4 +209,47 @@ FDGTol(g0, g1, h0, h1) == 3 + (Abs(g0) + Abs(g1)) \div 1048576 + (Abs(h0) + Abs(
 FDGBracket(g0, g1, h0, h1) ==
   /\ g1 - g0 >= Min2(h0, h1) - FDGTol(g0, g1, h0, h1)
   /\ g1 - g0 <= Max2(h0, h1) + FDGTol(g0, g1, h0, h1)
+(***************************************************************************)
+(* Part 4 (beyond the property): FilterRootPrior, the other registered     *)
+(* GeneralisedPrior.  G_v = beta (lambda_v / F_v - 1), F the filtered      *)
+(* image; the quotient is M sign(F) sign(lambda), M = 1000, unless         *)
+(* |lambda| < M |F|.  lam, f: fixed point with the same number of          *)
+(* fractional bits; g: 10 fractional bits; beta8 = 8 beta.                 *)
+(***************************************************************************)
+Sgn(a) == IF a >= 0 THEN 1 ELSE -1        \* as the implementation: sign(0) = +1
+FRGradOk(beta8, filter, lam, f, g) ==
+  IF beta8 = 0 \/ filter = "none" THEN g = 0
+  ELSE IF Abs(lam) < 1000 * Abs(f)
+       THEN LET q == ((lam - f) * 1024) \div f IN       \* floor((lambda/F - 1) 2^10)
+            Abs(8 * g - beta8 * q) <= 2 * Abs(beta8) + 8 + Abs(8 * g) \div 262144
+       ELSE 8 * g = beta8 * (1000 * Sgn(lam) * Sgn(f) - 1) * 1024
+
+\* theorems (MC_Priors): on a uniform image filtered to itself only a (numerically) zero gradient is accepted, and
+\* only a few neighbouring fixed-point values are accepted for any input
+FRUniformOnlyZero(beta8, lam) == /\ FRGradOk(beta8, "median", lam, lam, 0)
+                                 /\ \A g \in -40..40 : FRGradOk(beta8, "median", lam, lam, g) => 8 * Abs(g) <= 2 * Abs(beta8) + 8
+FRCentre(beta8, lam, f) == IF Abs(lam) < 1000 * Abs(f) THEN (beta8 * (((lam - f) * 1024) \div f)) \div 8
+                           ELSE (beta8 * (1000 * Sgn(lam) * Sgn(f) - 1) * 1024) \div 8
+FRDeterminate(beta8, lam, f) ==
+  LET c0 == FRCentre(beta8, lam, f) IN
+  /\ Cardinality({ g \in (c0 - 60)..(c0 + 60) : FRGradOk(beta8, "scale", lam, f, g) }) \in 1..(Abs(beta8) \div 2 + 8 + Abs(c0) \div 65536)
+  /\ ~FRGradOk(beta8, "scale", lam, f, c0 - 60) /\ ~FRGradOk(beta8, "scale", lam, f, c0 + 60)
+
+(***************************************************************************)
+(* Part 5 (beyond the property): the set-up protocol of GeneralisedPrior.  *)
+(* State cc: ready (set_up done and not invalidated), kappaOk (the kappa   *)
+(* image has the characteristics of the image of the calls).               *)
+(***************************************************************************)
+NotImplemented(prior, fn) == \/ prior = "pls" /\ fn \in {"hessian", "htimes", "happrox"}
+                             \/ prior \in {"rdp", "logcosh"} /\ fn = "happrox"
+\* RelativeDifferencePrior::set_weights / set_kappa_sptr reset the set-up flag (the other classes do not)
+SetterInvalidates(prior) == prior = "rdp"
+ProtoNext(cc, r) ==
+  CASE r.e = "SetUp" -> [cc EXCEPT !.ready = (cc.ready \/ ~r.err)]
+    [] r.e = "SetKappa" -> [cc EXCEPT !.kappaOk = r.match, !.ready = (cc.ready /\ ~SetterInvalidates(cc.prior))]
+    [] r.e = "SetWeights" -> [cc EXCEPT !.ready = (cc.ready /\ ~SetterInvalidates(cc.prior))]
+    [] OTHER -> cc
+CallMustFail(cc, fn) == NotImplemented(cc.prior, fn) \/ ~cc.ready \/ ~cc.kappaOk
+ProtoEvents == { [e |-> "SetUp", err |-> FALSE], [e |-> "SetUp", err |-> TRUE], [e |-> "SetKappa", match |-> TRUE], [e |-> "SetKappa", match |-> FALSE],
+                 [e |-> "SetWeights"], [e |-> "SetBeta"] }
 =============================================================================
